@@ -710,7 +710,7 @@ inductive Op where
   | setPeriods (dp vp : Nat)
   | setUnbond (n : Nat)
   | migrate (frm to : Addr) (sigOk : Bool)
-  deriving Repr
+  deriving Repr, DecidableEq
 
 def endBlock (s : State) (dt : Nat) : State :=
   let s1 := govEnd (stakingEnd s)
@@ -754,5 +754,26 @@ def stepP (c : Cfg) (stmts hs : List String) (s : State) : Op → State × Strin
   | op => step c s op
 
 def run (c : Cfg) (s : State) (ops : List Op) : State := ops.foldl (fun s o => (step c s o).1) s
+
+/-! ### a migration delivered as a transaction of a block
+
+`FinalizeBlock` runs, for the transaction, baseapp's `ValidateBasic` (same account, pair signature), then the ante handler
+(the transaction must carry the signature of the source's account key — `txSigner = frm` — and the fee is deducted from
+the source, locked coins excluded), then the message server; a failure of the message server keeps the fee.  The block's
+end blockers follow.  `txOps` is the list of model operations this amounts to. -/
+def feeCollector : Addr := 903
+
+def txOps (c : Cfg) (s : State) (dt fee : Nat) (txSigner frm to : Addr) (sigOk : Bool) : List Op × String :=
+  if frm == to then ([.block dt], "err:same") else
+  if c.sigRequired && !sigOk then ([.block dt], "err:sig") else
+  if txSigner != frm || !(s.hasKey.contains frm) || balOf s.bal frm 0 < lockedOf s frm 0 + fee then ([.block dt], "err:ante") else
+  let s1 := (step c s (.send frm feeCollector 0 fee)).1
+  ([.send frm feeCollector 0 fee, .migrate frm to sigOk, .block dt], (step c s1 (.migrate frm to sigOk)).2)
+
+/-- the block carrying the transaction: state after the block, and the outcome of the transaction -/
+def txBlock (c : Cfg) (stmts hs : List String) (s : State) (dt fee : Nat) (txSigner frm to : Addr) (sigOk : Bool) :
+    State × String :=
+  let (ops, r) := txOps c s dt fee txSigner frm to sigOk
+  (ops.foldl (fun s o => (stepP c stmts hs s o).1) s, r)
 
 end FxVerif.Model.C14
